@@ -51,6 +51,7 @@ structure RJ where
   result : String := ""
   fails : List String := []
   tainted : Bool := false    -- an undo of operations with untrue old values happened (wild cases only)
+  killMode : Bool := false   -- `sqlkill` cases: no dump after every action, only after the restart
 
 def wsMembers (ws : List (Option Nat)) : List Nat := ws.filterMap id
 
@@ -155,8 +156,19 @@ def rjFlush (j : RJ) : List String :=
 
 def rjLine (j : RJ) (line : String) : RJ × List String :=
   if line.startsWith "# case" then
-    ({ hdr := line, active := true, wild := (line.splitOn " ").contains "wild=1" }, rjFlush j)
+    ({ hdr := line, active := true, wild := (line.splitOn " ").contains "wild=1",
+       killMode := (line.splitOn " ").any (·.startsWith "kill-after-us=") }, rjFlush j)
   else if line == "> Q" then (j, [])
+  else if line.startsWith "> F " then
+    -- an interrupted action: `after` is judged like the action itself, `before` must leave the
+    -- previous dump, `mid` (half of a two-transaction action) is what C06 forbids
+    match (line.drop 2).toString.splitOn " " with
+    | _ :: _ :: outcome :: rest =>
+      if outcome == "after" then ({ j with action := rest, result := "", cur := {} }, [])
+      else if outcome == "before" then ({ j with action := ["F-before"], result := "", cur := {} }, [])
+      else ({ j with action := "F-mid" :: rest, result := "", cur := {},
+                     fails := j.fails ++ [s!"atomic {rest.headD "?"}-left-half-done"] }, [])
+    | _ => (j, [])
   else if line.startsWith "> " then
     ({ j with action := (line.drop 2).toString.splitOn " ", result := "", cur := {} }, [])
   else if line.startsWith "tasks=" then
@@ -174,11 +186,17 @@ def rjLine (j : RJ) (line : String) : RJ × List String :=
     let j := { j with cur := { j.cur with uns := ops, valid := true } }
     -- the dump is complete: judge it (the bare final dump of a replayed case has action Q)
     let isQ := j.action.isEmpty
-    let base := if j.action.head? == some "Y" then j.cur.tasks else j.base
+    let base := if j.action.head? == some "Y" || j.action.take 2 == ["F-mid", "Y"] then j.cur.tasks else j.base
     let j := { j with base := base }
     let undone := (j.action.head? == some "U" || j.action.head? == some "V") && j.result == "true"
     let j := { j with tainted := j.tainted || (j.wild && undone) }
-    let fs := if isQ then [] else checkDump j
+    let fs :=
+      if j.killMode then []
+      else if j.action == ["F-before"] then
+        (if j.cur.tasksTxt == j.prev.tasksTxt && j.cur.ws == j.prev.ws && j.cur.uns.length == j.prev.uns.length then []
+         else ["atomic effects-of-an-abandoned-transaction-are-visible"])
+      else if j.action.head? == some "F-mid" then []
+      else if isQ then [] else checkDump j
     ({ j with fails := j.fails ++ (fs.map briefWordsR), prev := j.cur, action := [] }, [])
   else if line == "panic" || line.startsWith "err:" || line.startsWith "sync err" || line == "rebuilt err" || line == "expire err" then
     ({ j with fails := j.fails ++ [s!"invariant unexpected-error {line}"] }, [])
